@@ -651,12 +651,15 @@ bool Interpret::getAssignment() const {
     std::ostringstream ss;
     auto const & termNames = solver.getTermNames();
     ss << '(';
+    bool first = true;
     for (auto const & [name, term] : termNames) {
         lbool val = solver.getTermValue(term);
-        ss << '(' << name << ' ' << (val == l_True ? "true" : (val == l_False ? "false" : "unknown")) << ')' << " ";
+        if (not first) { ss << ' '; }
+        first = false;
+        ss << '(' << Logic::protectName(name, false) << ' ' << (val == l_True ? "true" : (val == l_False ? "false" : "unknown")) << ')';
     }
-    if (ss.tellp() > 1) { ss.seekp(-1, std::ios::cur); } // drop the separator after the last pair, if there is any pair
     ss << ')';
+    // the text may contain '%': it must not be used as the format
     notify_formatted(false, "%s", ss.str().c_str());
     return true;
 }
